@@ -652,6 +652,14 @@ class Engine:
             return Opaque('zst', c)
         if c in self.const_cache:
             return clone(self.const_cache[c], {})
+        cs = strip_generics(c)
+        known = {'Decimal::ZERO': lambda: Dec(z3.IntVal(0), z3.IntVal(1)), 'Decimal::ONE': lambda: Dec(z3.IntVal(1), z3.IntVal(1)),
+                 'Decimal::TEN': lambda: Dec(z3.IntVal(10), z3.IntVal(1)), 'Decimal::ONE_HUNDRED': lambda: Dec(z3.IntVal(100), z3.IntVal(1)),
+                 'Uint128::MAX': lambda: U(2 ** 128 - 1), 'u128::MAX': lambda: z3.IntVal(2 ** 128 - 1), 'u64::MAX': lambda: z3.IntVal(2 ** 64 - 1),
+                 'u32::MAX': lambda: z3.IntVal(2 ** 32 - 1), 'Uint128::zero': None}
+        for k_, mk_ in known.items():
+            if mk_ is not None and (cs == k_ or cs.endswith('::' + k_)):
+                return mk_()
         name = c
         cand = [n for n in self.items if self.items[n][0].kind in ('const', 'static') and (n == name or name.endswith('::' + n) or n.endswith('::' + name))]
         if cand:
